@@ -37,6 +37,7 @@ AtOk(e) == LET t == T3(e.t) IN
 CenterOk(e) == T3(e.at) = T3(e.t)
 \* ids: edges of t = <<w, s, e, n>>, east neighbour, south neighbour, and the four children (same order)
 EdgesOk(e) ==
+   /\ e.buf1 = 1        \* a buffer of one tile reaches exactly to the far edges of the four neighbours (interior tiles)
    /\ (e.haseast = 1 => e.east[1] = e.t[3] /\ e.east[2] = e.t[2] /\ e.east[4] = e.t[4])      \* shared meridian, same parallels
    /\ (e.hassouth = 1 => e.south[4] = e.t[2] /\ e.south[1] = e.t[1] /\ e.south[3] = e.t[3])  \* shared parallel, same meridians
    \* children: <<2x,2y>> NW, <<2x+1,2y>> NE, <<2x+1,2y+1>> SE, <<2x,2y+1>> SW tile the parent bound
